@@ -203,6 +203,11 @@ impl Property for C05 {
         let cfg = resolve(&opts);
         let long = rng.chance(1, 12);
         let mut input = gen_input(rng, &cfg, long);
+        if rng.chance(1, 40) {
+            // bytes that mean something to other programs at the start of a file
+            let magic: Vec<u8> = rng.pick(MAGIC_PREFIXES).iter().copied().filter(|b| Some(*b) != cfg.delim).collect();
+            input.splice(0..0, magic);
+        }
         if long && rng.chance(1, 3) {
             // a total length that is exactly a multiple of the reader's buffer sizes, or one off
             let unit = *rng.pick(&[4096usize, 8192]);
